@@ -110,6 +110,9 @@ class C08Session(Session):
     def __init__(self, spec, cfg):
         super().__init__(spec, cfg)
         self.world = World(spec)
+        # the attributes every object has by construction (or gets from a non-field operation): its state.
+        # Private attributes that first appear during a field computation are memos of the library, not state.
+        self._state_attrs = [set(vars(o)) for o in self.world.objs]
         self.history = []
         self.hooks = faults.install()
         faults.INDEX_OF[0] = self.world.index
@@ -340,7 +343,10 @@ class C08Session(Session):
     # ---- the op ---------------------------------------------------------------
     def apply(self, op):
         if op["op"] != "field":
+            before = [set(vars(o)) for o in self.world.objs]
             out = self._plain(self.world, op)
+            for i, o in enumerate(self.world.objs):
+                self._state_attrs[i] |= set(vars(o)) - before[i]
             self.history.append(op)
             self.stats["ops"] += 1
             self.log.add("op", self.step, op["op"], out, sdigest(snap_world(self.world)))
@@ -348,20 +354,23 @@ class C08Session(Session):
         self._field(op)
         self.history.append(op)
 
-    @staticmethod
-    def _without_new_private(ref, snap):
+    def _state_only(self, snap):
         """The property is about the state an object *has* (paths, geometry, excitation, pixels, links, style).
-        A private attribute that did not exist before the call (a memo the library may decide to keep) is not
-        that state: it is left out of the comparison.  Everything that existed before must still be there."""
-        if len(ref["objs"]) != len(snap["objs"]):
-            return snap
+        A private attribute that no object had by construction and that only appears during a field
+        computation (a memo the library may decide to keep, whatever it holds later) is not that state: it is
+        left out of the comparison.  Everything an object had before must still be there, bitwise."""
         objs = []
-        for a, b in zip(ref["objs"], snap["objs"]):
-            objs.append({k: v for k, v in b.items() if k in a or not k.startswith("_")})
+        for i, b in enumerate(snap["objs"]):
+            known = self._state_attrs[i] if i < len(self._state_attrs) else None
+            objs.append(b if known is None else
+                        {k: v for k, v in b.items() if k in known or not k.startswith("_")})
         return {**snap, "objs": objs}
 
+    def _snap(self, world, data):
+        return self._state_only(snap_world(world, extra=data, strict_style=True))
+
     def _compare(self, world, pre, data, what, op, var, outcome):
-        post = self._without_new_private(pre, snap_world(world, extra=data, strict_style=True))
+        post = self._snap(world, data)
         if post != pre:
             path = first_diff(pre, post)
             raise Violation(
@@ -374,7 +383,7 @@ class C08Session(Session):
         world = self.world
         faults.INDEX_OF[0] = world.index
         data = self._bind(world, op, self._caller_data(op))
-        pre = snap_world(world, extra=data, strict_style=True)
+        pre = self._snap(world, data)
         # 1. baseline, fault free, recording reachable sites
         faults.HITS.clear()
         faults.CALLS.clear()
@@ -422,8 +431,8 @@ class C08Session(Session):
                 w = self._rebuild()
                 faults.INDEX_OF[0] = w.index
                 data = self._bind(w, op, data_main)
-                pre_w = snap_world(w, extra=data, strict_style=True)
-                if self._without_new_private(pre_w, pre) != self._without_new_private(pre, pre_w):
+                pre_w = self._snap(w, data)
+                if pre_w != pre:
                     raise HarnessError("rebuilt twin differs from the main world: " + str(first_diff(pre, pre_w)))
                 pre_v = pre_w
             self._arm(var)
